@@ -9,6 +9,7 @@ def handle (st : DState) (j : Json) : DState × Json :=
   | .str "reset" => ({ st with store := [] }, Json.mkObj [("r", Json.null)])
   | .str "sim" => (st, simOp j)
   | .str "semeq" => (st, semEqOp j)
+  | .str "backend_sim" => (st, backendSimOp j)
   | .str "atoms" =>
     let unit := fun (i : Nat) => (Ang.ofList ((0 : Int) :: (List.range 6).map (fun k => if k == i then (1 : Int) else 0))).getD 0
     let es : List Json := (List.range 6).map (fun i => cycToJson (Ang.e (unit i)))
